@@ -25,7 +25,9 @@ M3 = "def g():\n    return 3\n\n\nclass G:\n    pass\n"
 M4 = "class K:\n    z = 1\n\n\ndef h():\n    return K()\n"
 M1B = "import m4\nv = m4.K()\nu = m4.h()\n"
 INIT = {"m1.py": M1.encode(), "m2.py": M2.encode(), "pkg": DIR, "pkg/__init__.py": b"", "pkg/m3.py": M3.encode(),
-        "pkgb": DIR, "pkgb/__init__.py": b"", "pkgb/m5.py": b"def t():\n    return 5\n"}
+        "pkgb": DIR, "pkgb/__init__.py": b"", "pkgb/m5.py": b"def t():\n    return 5\n",
+        # a file matched by the default ignored_resources pattern `*~`, and a module that star-imports m2
+        "m6.py~": b"def old():\n    return 6\n", "m7.py": b"from m2 import *\n\n\ny = 1\n"}
 
 MUT = {
     "W:m2=B": ("W", "m2.py", M2B), "W:m2=C": ("W", "m2.py", M2C), "W:m1=B": ("W", "m1.py", M1B),
@@ -36,10 +38,11 @@ MUT = {
     "X:C:m2": ("XW", "m2.py", M2), "X:OLD:m2=B": ("XOLD", "m2.py", M2B),
     "Q:files": ("Q", "files"), "Q:find": ("Q", "find"), "Q:m1": ("Q", "mod", "m1.py"), "Q:m2": ("Q", "mod", "m2.py"),
     "Q:occ": ("Q", "occ"), "Q:all": ("Q", "all"), "Q:pkgs": ("Q", "pkgs"),
+    "MV:m2>m2~": ("MV", "m2.py", "m2.py~"), "MV:m6~>m6": ("MV", "m6.py~", "m6.py"), "Q:m7": ("Q", "mod", "m7.py"),
 }
 ALPHA_FULL = list(MUT)
 ALPHA_SMALL = ["MV:m3>pkgb", "Q:pkgs", "W:m2=B", "W:m1=B", "W:m4", "CF:m4", "MV:m2>pkg", "MV:pkg>pkg2", "RM:m2", "undo", "X:C:m4", "X:RM:m2", "X:C:m2", "Q:all", "Q:m1"]
-NAMES = ["m1", "m2", "m4", "m5", "pkg", "pkg.m3", "pkg.m2", "pkg2", "pkg2.m3", "pkg.sub", "pkgb", "pkgb.m3", "pkgb.m5"]
+NAMES = ["m6", "m7", "m1", "m2", "m4", "m5", "pkg", "pkg.m3", "pkg.m2", "pkg2", "pkg2.m3", "pkg.sub", "pkgb", "pkgb.m3", "pkgb.m5"]
 
 
 class Skip(Exception):
@@ -99,6 +102,9 @@ def observe(project, autoimport=None):
             d["source"] = pm.source_code
             attrs = pm.get_attributes()
             d["names"] = sorted(attrs.keys())
+            sc = pm.get_scope()
+            d["scope_names"] = sorted(sc.get_names().keys())
+            d["lookup"] = {n: (describe_pyname(sc.lookup(n)) if sc.lookup(n) is not None else None) for n in ("K", "L", "x", "y")}
             d["attrs"] = {k: describe_pyname(attrs[k]) for k in sorted(attrs)}
         except exceptions.ModuleSyntaxError:
             d["error"] = "ModuleSyntaxError"
@@ -275,6 +281,8 @@ class World:
                 pm = p.get_pymodule(f)
                 for k, v in pm.get_attributes().items():
                     describe_pyname(v)
+                pm.get_scope().get_names()
+                pm.get_scope().lookup("K")
             elif what == "occ":
                 f = p.get_file("m2.py")
                 if not f.exists():
@@ -320,10 +328,10 @@ def diff_obs(a, b):
 class C13(Check):
     pid = "C13"
     level = "model_checking"
-    rule = ("states are event histories over 28 events: 13 mutations through rope (content edits that add/remove definitions and "
+    rule = ("states are event histories over 31 events: 15 mutations through rope (moves of a file across the default ignore pattern `*~` in both directions, content edits that add/remove definitions and "
             "imports, create file/folder, move file into package, rename package folder, move onto another module name, remove, "
             "Rename refactoring, undo, redo), 6 changes behind rope's back each followed by validate() (write, write with an older time stamp, create, remove, "
-            "move, re-create) and 6 cache-warming queries; every enabled sequence to depth d is replayed on one long-lived real "
+            "move, re-create) and 7 cache-warming queries (incl. the global scope's name table of a star-importing module); every enabled sequence to depth d is replayed on one long-lived real "
             "Project (with an observing AutoImport index); after the last event the whole query battery (files, python files, "
             "find_module x10 names, per module: source, names, definition locations, inferred kinds/types/attribute sets, "
             "find_occurrences, AutoImport get_modules/search) is compared with a brand-new Project on the same directory; "
@@ -336,7 +344,7 @@ class C13(Check):
     budget_quick = 200
 
     def bound_text(self, tier):
-        return "depth 3 over 28 events" if tier == "quick" else "depth 4 over 28 events; depth 5 over a 13-event sub-alphabet"
+        return "depth 3 over 31 events" if tier == "quick" else "depth 4 over 31 events; depth 5 over a 13-event sub-alphabet"
 
     def cases(self, tier):
         out = []
